@@ -92,6 +92,12 @@ type Interp struct {
 	FaultAt   int
 	FaultCond string
 	Entries   int
+	// MutLists switches on the documented sharing model of sequences: cdr, rest
+	// and slice return VIEWS of their source and stable-sort permutes a mutable
+	// list in place (a quoted literal is sorted into a fresh list).  Off (the
+	// default) lists are immutable values: views are copies and stable-sort of a
+	// list returns a sorted copy.
+	MutLists bool
 }
 
 const LangPkg = "lisp"
@@ -206,7 +212,7 @@ func (in *Interp) lookupSym(env *Env, s *V) (*V, *Err) {
 			return v, nil
 		}
 		e := in.errf("unbound symbol: %s", nm)
-		e.Node = s.Pos
+		e.Node = posOr(s.Pos, e.Node) // a symbol built at run time has no position of its own
 		return nil, e
 	}
 	if v, ok := env.lookup(name); ok {
@@ -216,7 +222,7 @@ func (in *Interp) lookupSym(env *Env, s *V) (*V, *Err) {
 		return v, nil
 	}
 	e := in.errf("unbound symbol: %s", name)
-	e.Node = s.Pos
+	e.Node = posOr(s.Pos, e.Node) // a symbol built at run time has no position of its own
 	return nil, e
 }
 
